@@ -12,7 +12,7 @@ import z3
 from pyvc import tensor as tz
 from pyvc.harness import contract
 from pyvc.models import Model
-from pyvc.sym import SV, SymRaise, Unsupported, ceil_real, floor_real, num
+from pyvc.sym import SV, SymRaise, Unsupported, ceil_real, cur, floor_real, num
 from pyvc.tensor import T
 
 P = "C19"
@@ -146,7 +146,8 @@ def floor_gap(c):
 ASSUMPTIONS = [
     "RNG draws are universally quantified: exponential draws xi_j are arbitrary reals (>= 0 used only in the gap lemma), Bernoulli draws arbitrary booleans constrained only by p = 0 => never, p >= 1 => always",
     "A1 real arithmetic: refrac/dt exact (the IEEE behaviour of refrac // dt or refrac / dt for non-representable dt is exercised by the bounded stand-in with dt = 0.1)",
-    "NOT proved (bounded over seeds only): cumsum + scatter over the symbolic number of bins (whole offline raster), Poisson-interval OFFLINE encoder zero silence, reproducibility beyond generator forwarding (torch RNG determinism is trusted)",
+    "NOT proved (bounded over seeds only): the whole offline raster of the REFRACTORY encoder (cumsum + scatter over a symbolic number of bins; its intervals and the gap lemma are proved), reproducibility beyond generator forwarding (torch RNG determinism is trusted)",
+    "offline Poisson-interval encoder, zero silence for any number of steps: cumsum is an uninterpreted prefix sum that is 0 for an identically-zero summand (the solver proves the summand is zero at a fresh index), scatter_ is 'row written => some bin carries that index' with a Skolem witness; masked row indexing res[:, mask] is the arbitrary selected element",
     "online generators: for any number of steps by loop contracts (one arbitrary iteration of the real body + invariant; lean invariant_fold is the induction); the [steps<=3] contracts are kept as unrolled cross-checks of the loop-contract machinery",
 ]
 
@@ -520,4 +521,129 @@ MUTANTS += [
     dict(file=EN, func="poisson_interval_online", old="        for _ in range(steps):\n            # decrement intervals", new="        for _ in range(steps + 1):\n            # decrement intervals", contracts=["poisson_interval_online" + ANY], name="loop contract: one slice too many"),
     dict(file=EN, func="homogenous_poisson_bernoulli_approx_online", old="        for _ in range(steps):\n            # sample directly", new="        for _ in range(1, steps):\n            # sample directly", contracts=["homogenous_poisson_bernoulli_approx_online" + ANY], name="loop contract: one slice too few"),
     dict(file=EN, func="homogenous_poisson_bernoulli_approx_online", old="            yield torch.bernoulli(res, generator=generator).bool()", new="            yield torch.bernoulli(res, generator=generator).bool()\n            yield torch.bernoulli(res, generator=generator).bool()", contracts=["homogenous_poisson_bernoulli_approx_online" + ANY], name="loop contract: two slices per step"),
+]
+
+
+# ------------------------------------------------------------------------------------------------------------------
+# offline Poisson-interval encoder: zero-intensity elements are silent, for any number of steps.
+# The raster is assembled by cumsum + scatter over a symbolic number of interval bins; three local models carry exactly
+# what the silence argument needs (everything else - masking, clamping, casting, the final slice - runs for real):
+#   cumsum   S(t) is an uninterpreted prefix sum, except that the prefix sums of a summand that is identically zero are zero
+#            (checked, not assumed: the solver must prove  zero-intensity => summand(t0) = 0  for a fresh t0)
+#   scatter_ R(k) ("row k of this element was written") implies the existence of a bin whose index is k: Skolem witness
+#            w(k) with 0 <= w(k) < bins and index(w(k)) = k; conversely bin 0 writes row index(0)
+#   poisson  draws are arbitrary non-negative integers, 0 at rate 0
+@contract(P, "poisson_interval[zero intensity is silent, any number of steps]", [(EN, "poisson_interval")], min_obligations=4)
+def poisson_offline_silence(c):
+    x = c.pw("intensity_hz", eshape=tz.Shape((3,)))
+    dt = c.real("dt")
+    steps = c.int("steps")
+    c.require(x.f >= 0, dt > 0, steps >= 1)
+    I_, R_ = z3.IntSort(), z3.RealSort()
+    D = z3.Function("poisson_draw", I_, I_)
+    PS = z3.Function("prefix_sum", I_, R_)
+    W = z3.Function("scatter_witness", I_, I_)
+    ROW = z3.Function("row_written", I_, z3.BoolSort())
+    tn = c.interp.torch_ns._table
+    gens = []
+    saved = {k: tn.get(k) for k in ("poisson",)}
+    saved_m = {k: getattr(T, k, None) for k in ("cumsum", "scatter_")}
+    info = {}
+
+    def poisson(rate, generator=None):
+        gens.append(generator)
+        if rate.tlen is None:
+            raise Unsupported("poisson_interval: the rate tensor should carry the bin axis")
+        rf = rate.f
+        t0 = z3.Int("t_draw")
+        c.axiom(z3.ForAll([t0], D(t0) >= 0)) if False else None
+        return T(lambda t: z3.If(tz.coerce(rf(t), "float") == 0, z3.RealVal(0), z3.ToReal(z3.If(D(t) >= 0, D(t), -D(t)))), "float", rate.tlen, rate.taxis, rate.eshape)
+
+    def cumsum(self_t, dim=0):
+        if self_t.tlen is None or self_t.taxis != "first" or _concrete_int(dim) != 0:
+            raise Unsupported("cumsum other than along the leading bin axis")
+        f = self_t.f
+        t0 = z3.Int(cur().fresh_name("t_zero_lemma"))
+        zero_when_silent = cur().implied(z3.Implies(x.f == 0, tz.coerce(f(t0), "float") == 0))
+        info["zero_lemma"] = zero_when_silent
+        if zero_when_silent:
+            return T(lambda t: z3.If(x.f == 0, z3.RealVal(0), PS(t)), "float", self_t.tlen, "first", self_t.eshape)
+        return T(lambda t: PS(t), "float", self_t.tlen, "first", self_t.eshape)
+
+    def scatter_(self_t, dim, index, src):
+        if self_t.tlen is None or index.tlen is None or _concrete_int(dim) != 0:
+            raise Unsupported("scatter_ other than along the leading axis")
+        info["bins"] = num(index.tlen)
+        idx = index.f
+        info["index"] = idx
+        L = num(self_t.tlen)
+        k0 = z3.Int("k_row")
+
+        def rowf(k):
+            # instance of:  ROW(k) => 0 <= W(k) < bins /\\ index(W(k)) = k     and     ROW(index(0))
+            c.axiom(z3.Implies(ROW(k), z3.And(W(k) >= 0, W(k) < num(index.tlen), tz.coerce(idx(W(k)), "int") == k)))
+            return ROW(k)
+
+        c.axiom(ROW(tz.coerce(idx(z3.IntVal(0)), "int")))
+        return T(rowf, "bool", self_t.tlen, "first", self_t.eshape)
+
+    saved_idx = (T.__getitem__, T.__setitem__)
+
+    def is_masked_rows(k):
+        return isinstance(k, tuple) and len(k) == 2 and isinstance(k[0], slice) and k[0] == slice(None) and isinstance(k[1], T) and k[1].dtype == "bool" and k[1].tlen is None
+
+    def getitem(self_t, k):
+        # res[:, mask]: every bin of the elements selected by the (per-element) mask - value of the arbitrary SELECTED element
+        if is_masked_rows(k) and self_t.tlen is not None:
+            return T(self_t.f, self_t.dtype, self_t.tlen, self_t.taxis, None)
+        return saved_idx[0](self_t, k)
+
+    def setitem(self_t, k, v):
+        if is_masked_rows(k) and self_t.tlen is not None and isinstance(v, T) and v.tlen is not None:
+            old, m, nv = self_t.f, k[1].f, v.f
+            self_t.f = lambda t: z3.If(m, tz.coerce(nv(t), self_t.dtype), old(t))
+            return
+        return saved_idx[1](self_t, k, v)
+
+    tn["poisson"] = poisson
+    T.cumsum, T.scatter_ = cumsum, scatter_
+    T.__getitem__, T.__setitem__ = getitem, setitem
+    try:
+        out = c.outcome(c.function(EN, "poisson_interval"), x, steps, dt, generator="<the generator>")
+    finally:
+        T.__getitem__, T.__setitem__ = saved_idx
+        for k_, v in saved.items():
+            if v is None:
+                tn.pop(k_, None)
+            else:
+                tn[k_] = v
+        for k_, v in saved_m.items():
+            if v is None:
+                delattr(T, k_)
+            else:
+                setattr(T, k_, v)
+    c.expect_return(out)
+    r = out.value
+    c.ensure("draws_use_the_given_generator", len(gens) >= 1 and all(g == "<the generator>" for g in gens))
+    c.ensure("prefix_sums_of_a_silent_element_are_zero", bool(info.get("zero_lemma")))
+    c.ensure("one_bin_per_step_plus_two", info.get("bins") is not None and info["bins"] == steps.z + 2)
+    c.ensure("boolean_time_first_with_steps_rows", z3.And(r.dtype == "bool" and r.tlen is not None and r.taxis == "first", num(r.tlen) == steps.z))
+    t = c.int("t")
+    c.require(0 <= t, t < steps)
+    c.ensure("silent_at_zero_intensity", z3.Implies(x.f == 0, z3.Not(r.f(t.z))))
+    c.canary("canary_always_silent", z3.Not(r.f(t.z)))
+
+
+def _concrete_int(v):
+    if isinstance(v, int):
+        return v
+    z = z3.simplify(num(v))
+    return z.as_long() if z3.is_int_value(z) else None
+
+
+OFF = "poisson_interval[zero intensity is silent, any number of steps]"
+MUTANTS += [
+    dict(file=EN, func="poisson_interval", old="        res = res[1:-1]", new="        res = res[:-2]", contracts=[OFF], name="seed C19e: row 0 (where silent elements land) kept, last real row dropped"),
+    dict(file=EN, func="poisson_interval", old="        inputs[~mask] = 0\n\n        # convert rates into intervals via sampling\n        res = torch.poisson(", new="        # convert rates into intervals via sampling\n        res = torch.poisson(", contracts=[OFF], name="offline: zero-intensity elements keep an infinite expected interval instead of 0"),
+    dict(file=EN, func="poisson_interval", old="            inputs.expand(steps + 2, *inputs.shape), generator=generator", new="            inputs.expand(steps + 1, *inputs.shape), generator=generator", contracts=[OFF], name="offline: one bin too few (one row too few)"),
 ]
